@@ -58,7 +58,14 @@ func checkC16(c *Ctx) error {
 		}
 		cases[i] = cse{conf.YAML(), kinds, conf}
 	}
-	Par(n, 16, func(i int) {
+	Par(n+n/3, 16, func(i int) {
+		// the last third repeats the first third with --stub added to every run: what the ignore flags do does not depend on it
+		var mode []string
+		if i >= n {
+			i = (i - n) * 3
+			mode = []string{"--stub"}
+			c.Add("cases_repeated_with_--stub", 1)
+		}
 		cs := cases[i]
 		dir := w.TempDir("c16")
 		_ = work.WriteFile(filepath.Join(dir, "in.yaml"), []byte(cs.yaml))
@@ -66,13 +73,13 @@ func checkC16(c *Ctx) error {
 		outs := make([]string, len(combos))
 		for k, fl := range combos {
 			out := filepath.Join(dir, fmt.Sprintf("out%d.go", k))
-			args := append([]string{"build", "-i", "in.yaml", "-o", out}, fl...)
+			args := append(append([]string{"build", "-i", "in.yaml", "-o", out}, fl...), mode...)
 			runs[k] = cli.Do(w, "", nil, dir, out, args...)
 			if b, err := os.ReadFile(out); err == nil {
 				outs[k] = string(b)
 			}
 		}
-		files := map[string]string{"input/in.yaml": cs.yaml, "injected.txt": strings.Join(cs.kinds, ","), "stdout-noflags.txt": runs[0].Res.Stdout}
+		files := map[string]string{"input/in.yaml": cs.yaml, "injected.txt": strings.Join(cs.kinds, ","), "stdout-noflags.txt": runs[0].Res.Stdout, "mode.txt": strings.Join(mode, " ")}
 		ignorable, other := false, false
 		for _, k := range cs.kinds {
 			if strings.HasPrefix(k, "missing-") {
@@ -81,7 +88,7 @@ func checkC16(c *Ctx) error {
 				other = true
 			}
 		}
-		c.Eval(cs.yaml, (ignorable && other) || runs[0].Res.Exit == 0)
+		c.Eval(cs.yaml+strings.Join(mode, ""), (ignorable && other) || runs[0].Res.Exit == 0)
 		for k := range combos {
 			for _, b := range runs[k].Contract() {
 				c.Side("C10,C12", "cli-contract:"+sigWords(b), fmt.Sprintf("flags %v: %s\n%s", combos[k], b, runs[k].Res.Stdout), files)
@@ -150,7 +157,7 @@ func checkC16(c *Ctx) error {
 				continue
 			}
 			out := filepath.Join(dir, fmt.Sprintf("quiet%d.go", k))
-			args := append([]string{"build", "-i", "in.yaml", "-o", out, "--quiet"}, fl...)
+			args := append(append([]string{"build", "-i", "in.yaml", "-o", out, "--quiet"}, fl...), mode...)
 			q := cli.Do(w, "", nil, dir, out, args...)
 			b, _ := os.ReadFile(out)
 			c.Add("quiet_twins_compared", 1)
@@ -182,7 +189,7 @@ func checkC16(c *Ctx) error {
 		for k := 0; k < 3; k++ {
 			sp := spell[(i*3+k)%len(spell)]
 			out := filepath.Join(dir, fmt.Sprintf("spell%d.go", k))
-			args := append([]string{"build", "-i", "in.yaml", "-o", out}, sp.args...)
+			args := append(append([]string{"build", "-i", "in.yaml", "-o", out}, sp.args...), mode...)
 			q := cli.Do(w, "", nil, dir, out, args...)
 			b, _ := os.ReadFile(out)
 			c.Add("flag_spellings_compared", 1)
